@@ -94,6 +94,8 @@ def run(ctx, rep):
     # R-C16-4 hash schedule
     rep.rule('R-C16-4', 'hash schedule (multiply/add/xor magic constants, rotation amounts, at -O1) equals the reference schedule', 3)
     rep.rule('R-C16-4g', 'hash multiplier globals are never written', 1)
+    from .C04 import memhash_pairing
+    memhash_pairing(P, rep, 'R-C16-3h')
     from .C10 import primitive_roundtrip_rule
     primitive_roundtrip_rule(P, rep, 'R-C16-3p')
     refs = json.load(open(os.path.join(VERIF, 'ref', 'hash_schedule.json')))
